@@ -471,6 +471,10 @@ func GenAPI(t *rapid.T) APICase {
 			s.Op = "write"
 			s.Name = genbench.Name(t)
 			s.Iters = rapid.IntRange(0, 1<<40).Draw(t, "iters")
+			if vcase.OneIn(t, 10, "hugeiters") {
+				// counts of 18 and 19 digits, up to the largest int
+				s.Iters = rapid.SampledFrom([]int{math.MaxInt64, math.MaxInt64 - 1, 1e18, 1e18 - 1, 1e17, 999999999999999999, 1 << 62, 5e18}).Draw(t, "hugeit")
+			}
 			nv := rapid.IntRange(1, 4).Draw(t, "nv")
 			if vcase.OneIn(t, 25, "manyv") {
 				nv = rapid.IntRange(30, 70).Draw(t, "nvbig")
